@@ -1162,6 +1162,75 @@ class Pools:
         P['Plane'] = lambda: sm.Plane(r.normal(size=4))
         P['DualQuaternion'] = lambda: DualQuaternion(sm.Quaternion(r.normal(size=4)), sm.Quaternion(r.normal(size=4)))
         P['UnitDualQuaternion'] = lambda: UnitDualQuaternion(sm.SE3(se3()))
+        # ---- SPECIAL VALUES (exact 0 / pi/2 / pi rotations about coordinate and generic axes, identity, pure translation /
+        # pure rotation, singular RPY / Euler configurations, zero and unit vectors, antipodal / negative-scalar quaternions,
+        # s in {0, 0.3, 1}, views of a caller-owned array): the branches of the library are selected by such inputs
+        pi = math.pi
+
+        def rot_pi(a=None):
+            a = r.normal(size=3) if a is None else np.asarray(a, float)
+            a = a / np.linalg.norm(a)
+            return 2.0 * np.outer(a, a) - np.eye(3)
+        t3 = lambda: r.normal(size=3)
+        SP = {}
+        SP['S'] = [lambda: 0.0, lambda: 0.3, lambda: 1.0, lambda: pi, lambda: pi / 2, lambda: -pi, lambda: 0.5, lambda: 2 * pi]
+        SP['I'] = [lambda: 0, lambda: 1, lambda: -1, lambda: 2]
+        SP['M33'] = [lambda: np.eye(3), lambda: base.rotx(pi), lambda: base.roty(pi), lambda: base.rotz(pi), rot_pi,
+                     lambda: rot_pi([1, 1, 0]), lambda: base.rotx(pi / 2), lambda: base.rotz(-pi / 2),
+                     lambda: base.rpy2r(0.3, pi / 2, 0.2), lambda: base.rpy2r(0.3, -pi / 2, 0.2), lambda: base.eul2r(0.3, 0, 0.2),
+                     lambda: base.eul2r(0.3, pi, 0.2),
+                     lambda: base.rt2tr(rot_pi(), t3())[:3, :3],                    # a view of a caller-owned 4x4
+                     lambda: np.ascontiguousarray(rot_pi()).T,                      # a transpose view
+                     lambda: base.rt2tr(base.rpy2r(0.3, 0.2, 0.1), t3())[:3, :3]]
+        SP['M44'] = [lambda: np.eye(4), lambda: base.transl(1.0, 2.0, 3.0), lambda: base.trotx(pi), lambda: base.troty(pi),
+                     lambda: base.trotz(pi), lambda: base.rt2tr(rot_pi(), t3()), lambda: base.rt2tr(rot_pi(), np.zeros(3)),
+                     lambda: base.rt2tr(base.rpy2r(0.3, pi / 2, 0.2), t3()), lambda: base.rt2tr(base.rotx(pi / 2), np.zeros(3)),
+                     lambda: base.rt2tr(base.eul2r(0.3, 0, 0.2), t3()), lambda: np.ascontiguousarray(base.rt2tr(rot_pi(), t3()).T).T]
+        SP['M22'] = [lambda: base.rot2(0), lambda: base.rot2(pi), lambda: base.rot2(pi / 2), lambda: base.rot2(-pi / 2),
+                     lambda: base.trot2(pi, t=[1, 2])[:2, :2]]
+        SP['M33se2'] = [lambda: np.eye(3), lambda: base.transl2(1.0, 2.0), lambda: base.trot2(pi), lambda: base.trot2(pi, t=[1, 2]),
+                        lambda: base.trot2(pi / 2, t=[0, 0])]
+        SP['V2'] = [lambda: [0.0, 0.0], lambda: np.array([1.0, 0.0]), lambda: np.zeros((2, 1))]
+        SP['V3'] = [lambda: [0.0, 0.0, 0.0], lambda: np.zeros(3), lambda: np.array([1.0, 0.0, 0.0]), lambda: (0.0, 0.0, 1.0),
+                    lambda: np.array([pi, 0.0, 0.0]), lambda: np.zeros((3, 1)), lambda: [0.3, pi / 2, 0.2], lambda: [0.3, 0.0, 0.2]]
+        SP['V3u'] = [lambda: [1.0, 0.0, 0.0], lambda: np.array([0.0, 0.0, 1.0]), lambda: [0.0, -1.0, 0.0]]
+        SP['V4'] = [lambda: np.array([1.0, 0, 0, 0]), lambda: [-1.0, 0.0, 0.0, 0.0], lambda: np.array([0.0, 1.0, 0, 0]), lambda: np.zeros(4),
+                    lambda: (lambda v: -np.abs(v[0]) * np.r_[1, 0, 0, 0] + np.r_[0, v[1:]])(P['V4u']())]
+        SP['V4u'] = [lambda: np.array([1.0, 0, 0, 0]), lambda: np.array([-1.0, 0, 0, 0]), lambda: np.array([0.0, 1.0, 0, 0]),
+                     lambda: (lambda v: np.r_[-abs(v[0]), v[1:]])((lambda v: v / np.linalg.norm(v))(r.normal(size=4)))]
+        SP['V6'] = [lambda: np.zeros(6), lambda: [0.0, 0, 0, 0, 0, 1.0], lambda: np.array([1.0, 0, 0, 0, 0, 0]),
+                    lambda: np.array([0.0, 0, 0, pi, 0, 0]), lambda: [1.0, 2.0, 3.0, 0, 0, 0]]
+        SP['SO3'] = [(lambda f=f: sm.SO3(f())) for f in SP['M33'][:12]] + [lambda: sm.SO3(rot_pi()).inv(), lambda: sm.SO3()]
+        SP['SE3'] = [(lambda f=f: sm.SE3(f())) for f in SP['M44'][:10]] + [lambda: sm.SE3(base.rt2tr(rot_pi(), t3())).inv(), lambda: sm.SE3()]
+        SP['SO2'] = [lambda: sm.SO2(0), lambda: sm.SO2(pi), lambda: sm.SO2(pi / 2), lambda: sm.SO2()]
+        SP['SE2'] = [lambda: sm.SE2(), lambda: sm.SE2(1, 2, pi), lambda: sm.SE2(0, 0, pi / 2), lambda: sm.SE2(1, 2, 0)]
+        SP['UnitQuaternion'] = [lambda: sm.UnitQuaternion(), lambda: sm.UnitQuaternion(base.rotx(pi)), lambda: sm.UnitQuaternion(rot_pi()),
+                                lambda: sm.UnitQuaternion(-sm.UnitQuaternion(rot3()).vec), lambda: sm.UnitQuaternion([0.0, 1.0, 0, 0]),
+                                lambda: sm.UnitQuaternion([-1.0, 0, 0, 0]), lambda: sm.UnitQuaternion(SP['V4u'][3]()),
+                                lambda: sm.UnitQuaternion(base.rpy2r(0.3, pi / 2, 0.2))]
+        SP['Quaternion'] = [lambda: sm.Quaternion([0.0, 0, 0, 0]), lambda: sm.Quaternion([1.0, 0, 0, 0]), lambda: sm.Quaternion([-1.0, 2, 3, 4]),
+                            lambda: sm.Quaternion([0.0, 1, 0, 0])]
+        SP['Twist3'] = [(lambda f=f: sm.Twist3(np.asarray(f(), float).flatten())) for f in SP['V6']]
+        SP['Twist2'] = [lambda: sm.Twist2([0.0, 0, 0]), lambda: sm.Twist2([0.0, 0, 1.0]), lambda: sm.Twist2([1.0, 0, 0])]
+        SP['Plucker'] = [lambda: sm.Plucker.PQ([0, 0, 0], [1, 0, 0]), lambda: sm.Plucker.PQ([0, 0, 1], [1, 0, 1])]
+        SP['LM33'] = [lambda: [base.rotx(pi), np.eye(3), rot_pi()]]
+        SP['LM44'] = [lambda: [base.trotx(pi), np.eye(4), base.rt2tr(rot_pi(), t3())]]
+        for k in ('SO3', 'SE3', 'SO2', 'SE2', 'UnitQuaternion', 'Quaternion', 'Twist3', 'Twist2'):
+            SP[k + '*'] = [(lambda k=k: getattr(sm, k)([SP[k][int(r.integers(0, len(SP[k])))]().A for _ in range(3)]))]
+        SP['M44n'], SP['M33n'] = SP['M44'], SP['M33']
+        self.SP = SP
+        self.psp = 0.25                      # probability that a factory hands out a special value
+        regular = dict(P)
+        self.regular = regular
+
+        def mixed(c):
+            def f():
+                if c in SP and r.random() < self.psp:
+                    return self.special(c)
+                return regular[c]()
+            return f
+        for c in list(P):
+            P[c] = mixed(c)
         self.P = P
         self.cats = sorted(P)
         self.classes = {k: getattr(sm, k) for k in O}
@@ -1199,11 +1268,41 @@ class Pools:
                    ('SO3', ['R', 'x', 'other']), ('Twist3', ['S', 'x']), ('UnitQuaternion', ['q', 'x', 'other', 'end'])):
         HINTS[_k] = HINTS[_k] + _v if _k in HINTS else _v
 
+    def special(self, c):
+        """a special value of category c (falls back to a regular one)"""
+        lst = self.SP.get(c)
+        if not lst:
+            return self.regular[c]()
+        for _ in range(4):
+            try:
+                with np.errstate(all='ignore'):
+                    return lst[int(self.rng.integers(0, len(lst)))]()
+            except Exception:
+                continue
+        return self.regular[c]()
+
+    def related(self, o):
+        """an argument correlated with o: the antipode / negation, an equal copy, the inverse"""
+        r = self.rng
+        k = int(r.integers(0, 3))
+        try:
+            if isinstance(o, np.ndarray):
+                return [-o, o.copy(), o.T.copy()][k]
+            if isinstance(o, (list, tuple)) and o and all(isinstance(x, (int, float)) for x in o):
+                return [type(o)(-x for x in o), type(o)(o), type(o)(o)][k]
+            if type(o).__name__ in ('UnitQuaternion', 'Quaternion') and k < 2:
+                return type(o)([-x for x in o.data]) if len(o) > 1 else type(o)(-o.vec)
+            if hasattr(o, 'inv') and k == 0:
+                return o.inv()
+            return copy.deepcopy(o)
+        except Exception:
+            return copy.deepcopy(o)
+
     def candidates(self, pname, owner):
         """categories to try for a parameter name (owner: name of the receiver's class or None)"""
         c = [k for k, names in self.HINTS.items() if pname in names]
         if pname in ('other', 'right', 'left', 'item', 'value', 'x', 'arg', 'iterable', 'y', 'T', 'v', 'q', 'end', 'start', 'S', 'plane',
-                     'l2', 'line', 'X', 'obj', 'a', 'b'):
+                     'l2', 'line', 'X', 'obj', 'a', 'b', 'dest', 'q2', 'T1', 'T0', 'target', 'to', 'frm', 'second', 'first'):
             if owner and owner in self.P:
                 c += [owner, owner, owner + '*'] if owner + '*' in self.P else [owner, owner]
             c += [k for k in self.classes if k in self.P and self.rng.random() < 0.25]
@@ -1267,6 +1366,9 @@ class Harness:
         self.success = {}
         self.attempts = {}
         self.nmut = 0
+        self.registry = {}
+        self.cur_key = None
+        self.reached = {}
 
     # ------------------------------------------------------------ one call under snapshots
     def guarded(self, f, args, kwargs):
@@ -1285,6 +1387,7 @@ class Harness:
         """roles: one label per positional arg ('receiver' / parameter name)"""
         ctx = self.ctx
         key = f"{owner + '.' if owner else ''}{name}"
+        self.cur_key = key
         all_objs = list(args) + [kwargs[k] for k in sorted(kwargs)]
         all_roles = list(roles) + [f"arg:{k}" for k in sorted(kwargs)]
         before = [snap(a) for a in all_objs]
@@ -1370,29 +1473,51 @@ class Harness:
             vals.append(v if v is not None else P.P[c]())
         return cats, vals
 
-    def opt_kwargs(self, opt, owner):
+    ENUMS = [('rad', 'deg'), ('zyx', 'xyz', 'yxz', 'arm', 'vehicle', 'camera'), ('rpy/zyx', 'rpy/xyz', 'eul', 'angvec'),
+             ('array', 'row', 'col', 'sequence', 'list')]
+
+    def option_values(self, p):
+        """alternative values of an optional parameter, discovered from its default: bool -> both, enum-like str ->
+        the other members, None / number -> values suggested by the parameter name (None when nothing is known)"""
+        d = p.default
+        if isinstance(d, bool):
+            return 'bool', [True, False]
+        if isinstance(d, str):
+            for e in self.ENUMS:
+                if d in e:
+                    return 'enum', list(e)
+            return 'str', None
+        return 'soft', None
+
+    def opt_kwargs(self, opt, owner, p_toggle=0.35, p_soft=0.4, p_special=0.3):
         r = self.ctx.rng
+        P = self.pools
         kw = {}
         for p in opt:
             if p.name in ('file',):
                 kw[p.name] = None
                 continue
-            if r.random() < 0.25:
-                c = self.pools.candidates(p.name, owner)
+            kind, vals = self.option_values(p)
+            if kind in ('bool', 'enum'):
+                if r.random() < p_toggle:
+                    kw[p.name] = vals[int(r.integers(0, len(vals)))]
+            elif r.random() < p_soft:
+                c = P.candidates(p.name, owner)
                 if c:
-                    kw[p.name] = self.pools.P[c[int(r.integers(0, len(c)))]]()
+                    cat = c[int(r.integers(0, len(c)))]
+                    kw[p.name] = P.special(cat) if r.random() < p_special else P.P[cat]()
         return kw
 
-    def exercise(self, kind, owner, name, o, budget, want, config=''):
+    def exercise(self, kind, owner, name, o, budget, want, config='', directed=None):
         P = self.pools
         key = f"{owner + '.' if owner else ''}{name}"
-        cls = P.classes.get(owner) if owner else None
+        self.registry[key] = (kind, owner, name, o)
         if kind == 'prop':
             for variant in (owner, owner + '*'):
                 if variant not in P.P:
                     continue
-                for _ in range(2):
-                    rec = P.P[variant]()
+                for i in range(2 + (directed or 0) // 4):
+                    rec = P.special(variant) if i % 2 else P.P[variant]()
                     self.call(kind, owner, name, lambda s: o.fget(s), ['receiver'], [rec], {}, config=config)
             return
         target = o
@@ -1421,6 +1546,101 @@ class Harness:
                 # stop after `want` successes that cover at least 3 different argument-type tuples (when there are arguments)
                 if got >= want and (not req or len(set(self.good[key])) >= 3 or got >= 3 * want):
                     break
+        if directed and (got or not req):
+            self.directed(kind, owner, name, target, req, opt, takes_self, directed, config)
+
+    def directed(self, kind, owner, name, target, req, opt, takes_self, n, config='', intense=False):
+        """special values x option keywords x receiver forms x correlated arguments, on the argument-type tuples that
+        are known to work: first every option value singly and all boolean options jointly, then a sample of the product"""
+        P, r = self.pools, self.ctx.rng
+        key = f"{owner + '.' if owner else ''}{name}"
+        good = sorted(set(self.good.get(key, []))) or ([()] if not req else [])
+        if not good:
+            good = [tuple(self.draw(req, owner, key)[0]) for _ in range(3)]
+        roles = (['receiver'] if takes_self else []) + [f"arg:{p.name}" for p in req]
+        opts = [(p, *self.option_values(p)) for p in opt if p.name != 'file']
+        filekw = {'file': None} if any(p.name == 'file' for p in opt) else {}
+        plans = []
+        for p, kind_, vals in opts:                      # every boolean / enum option value singly
+            if vals:
+                plans += [{p.name: v} for v in vals]
+        bools = [p.name for p, k_, v in opts if k_ == 'bool']
+        if len(bools) > 1:
+            plans += [{b: True for b in bools}, {b: False for b in bools}]
+        for i in range(n):
+            cats = good[int(r.integers(0, len(good)))]
+            if i < len(plans):
+                kw, psp = dict(plans[i]), 0.3
+            else:
+                kw, psp = {}, 0.55
+                for p, kind_, vals in opts:
+                    if vals and r.random() < 0.7:
+                        kw[p.name] = vals[int(r.integers(0, len(vals)))]
+            for p, kind_, vals in opts:                  # None / numeric defaults: fill from the name hints
+                if not vals and p.name not in kw and r.random() < (0.75 if intense or i >= len(plans) else 0.4):
+                    c = P.candidates(p.name, owner)
+                    if c:
+                        cat = c[int(r.integers(0, len(c)))]
+                        kw[p.name] = P.special(cat) if r.random() < 0.5 else P.P[cat]()
+            vals_ = [(P.special(c) if r.random() < psp else P.regular[c]()) for c in cats]
+            if takes_self:
+                u = r.random()
+                variant = owner + '*' if (owner + '*' in P.P and u < 0.25) else owner
+                rec = P.special(variant) if r.random() < psp + 0.15 else P.regular[variant]()
+                vals_ = [rec] + vals_
+            # correlated arguments: one slot becomes the antipode / copy / inverse of another slot of the same type
+            slots = [('pos', j) for j in range(len(vals_))] + [('kw', k_) for k_ in kw if k_ not in filekw]
+            if len(slots) > 1 and r.random() < 0.35:
+                get = lambda sl: vals_[sl[1]] if sl[0] == 'pos' else kw[sl[1]]
+                a = slots[int(r.integers(0, len(slots)))]
+                same = [b for b in slots if b != a and type(get(b)) is type(get(a)) and not isinstance(get(a), (bool, str, int, float, type(None)))]
+                if same:
+                    b = same[int(r.integers(0, len(same)))]
+                    v = P.related(get(a))
+                    if b[0] == 'pos' and not (takes_self and b[1] == 0):
+                        vals_[b[1]] = v
+                    elif b[0] == 'kw':
+                        kw[b[1]] = v
+            kw.update(filekw)
+            self.ctx.count('directed_calls')
+            self.call(kind, owner, name, target, roles, vals_, kw, config=config, check_det=(i % 3 == 0))
+
+    def intensify(self, rejected_fullnames, reached, total):
+        """the static analyser rejects a function that is not a known finding: look hard for a concrete failing call
+        among the public callables that were seen to execute it"""
+        keys = []
+        for fn in rejected_fullnames:
+            ks = sorted(reached.get(fn, ()))
+            if not ks:
+                short = fn.split(':')[-1].split('.')[0:2]
+                ks = [k for k in self.registry if k.split('.')[-1] in short or fn.split(':')[-1] == k]
+            keys += [k for k in ks if k in self.registry and k not in keys]
+        self.ctx.stats['intensified_callables'] = keys[:60]
+        if not keys:
+            return
+        per = max(40, total // len(keys))
+        n0 = self.nmut
+        old = self.pools.psp
+        self.pools.psp = 0.5
+        try:
+            for k in keys[:60]:
+                kind, owner, name, o = self.registry[k]
+                if kind == 'prop':
+                    self.exercise(kind, owner, name, o, 0, 0, directed=per)
+                    continue
+                sp = signature_params(o)
+                if sp is None:
+                    continue
+                req, opt = sp
+                takes_self = kind == 'meth'
+                if takes_self:
+                    if not req:
+                        continue
+                    req = req[1:]
+                self.directed(kind, owner, name, o, req, opt, takes_self, per, intense=True)
+        finally:
+            self.pools.psp = old
+        self.ctx.stats['intensified_mutations_found'] = self.nmut - n0
 
     # ------------------------------------------------------------ operators (both operands, augmented forms)
     def operators(self, n):
@@ -1971,12 +2191,20 @@ def oracle(ctx, tr, rejected):
     executed = set()
     pkg = os.path.realpath(tr.pkg)
 
+    cache = {}
+
     def tracer(frame, event, arg):
         co = frame.f_code
-        if co.co_filename.startswith(pkg) or 'spatialmath' in co.co_filename:
-            k = (os.path.realpath(co.co_filename), co.co_firstlineno)
-            if k in lines:
-                executed.add(lines[k])
+        fn = cache.get(co, 0)
+        if fn == 0:
+            fn = None
+            if 'spatialmath' in co.co_filename:
+                fn = lines.get((os.path.realpath(co.co_filename), co.co_firstlineno))
+            cache[co] = fn
+        if fn is not None:
+            executed.add(fn)
+            if H.cur_key is not None:
+                H.reached.setdefault(fn, set()).add(H.cur_key)
         return None
     # trprint & co. capture sys.stdout in a default argument at import time: silence the file descriptor itself
     sys.stdout.flush()
@@ -1988,11 +2216,18 @@ def oracle(ctx, tr, rejected):
     try:
         with ctx.timed('harness:single-calls'):
             for kind, owner, name, o in calls:
-                H.exercise(kind, owner, name, o, ctx.n(40, 250), ctx.n(4, 16))
+                H.exercise(kind, owner, name, o, ctx.n(40, 250), ctx.n(4, 16), directed=ctx.n(24, 120))
         with ctx.timed('harness:operators'):
             H.operators(ctx.n(2500, 40000))
         with ctx.timed('harness:histories'):
             H.histories(ctx.n(120, 2500), ctx.n(14, 25), calls)
+        # a function newly rejected by the analyser: directed, intensified search for a concrete failing call
+        from lib.core import load_known
+        known = load_known(ctx.prop)
+        fresh_rej = sorted(f for f in rejected if ('static:rejected:' + f) not in known)
+        if fresh_rej:
+            with ctx.timed('harness:intensified'):
+                H.intensify(fresh_rej, H.reached, ctx.n(12000, 60000))
         # other configurations of the display options (class attributes of SMPose)
         from spatialmath.super_pose import SMPose
         with ctx.timed('harness:configurations'):
